@@ -9,6 +9,10 @@ COMMON_ASSUMPTIONS = [
     "the four interception points (scipy_solver.minimize, scipy.optimize.linprog looked up at call time, the `time` attribute of both solver modules) exist; their absence is reported as HARNESS-ERROR, never as a pass",
     "a forked child of a process that imported optyx but never built an expression is a 'fresh process' for optyx's purposes",
     "models are small (<= 13 variables per container, chains of up to 405 terms); nothing is claimed about scale",
+    "model language: scalars, vectors, matrices (2x2 .. 3x4, symmetric or not), views (slices, strides, reversals, rows, columns, diagonals, "
+    "transposes, sub-blocks), + - * / **, 10 elementary functions, sums, c@v, A@v (constant A and MatrixVariable), dot, quadratic forms (v.dot(Q@v) and "
+    "quadratic_form), bilinear forms over two views, L1/L2 norms, trace, element-wise functions/powers, Parameters (scalar / vector, typed writes); "
+    "one run in eight declares its variables under other names (leading underscore, numbered names, non-ASCII)",
 ]
 
 
@@ -46,7 +50,8 @@ _PEER_RULE = (
     "peer behind the solver seam is per solve: real SciPy (seeded x0/tol/maxiter), real SciPy with a truncated iteration budget, or a scripted "
     "answer drawn from the method's own (success, status, message) table with x in {what SciPy really returned, a feasible point, a point "
     "violating a constraint by >= 1e-2, a point violating a declared bound by >= 0.5 (success=True only for methods optyx passes no bounds to)}; "
-    "the SLSQP->trust-constr retry entry can be scripted separately.  Distinct/non-trivial: (solver entries, peer class, x kind, returned status, "
+    "the SLSQP->trust-constr retry entry can be scripted separately; between solves the user may look at the model (summary / repr / variables / bounds) and "
+    "solve again, a quarter of the pools mix integer / binary variables in.  Distinct/non-trivial: (solver entries, peer class, x kind, returned status, "
     "values present)."
 )
 
@@ -117,9 +122,10 @@ PROPS = {
         "rule": (
             "history part: the C13 edit/solve machine on pools with integer/binary variables (30-100% of declarations), domain edits, 45% strict "
             "solves: integer variables introduced by subject_to after a solve cached the variable list / LP data, strict solve right after a relaxed "
-            "one on each route.  Oracles: strict=True => an exception raised with ZERO solver entries at the seam, IntegerVariableError naming exactly "
+            "one on each route; models whose every expression is a reduction over ONE VectorVariable object with per-element domain edits; solves issued from "
+            "bare, `python -c`/REPL-like, script-like and notebook-like caller namespaces.  Oracles: strict=True => an exception raised with ZERO solver entries at the seam, IntegerVariableError naming exactly "
             "the non-continuous mentioned variables of the shadow state; strict=False with a returned solution => a relaxation UserWarning naming "
-            "exactly those variables, and the result (status, values, objective, data handed to the solver) equals, tightly, the solve of the same "
+            "exactly those variables (a relaxed solve that raises although its all-continuous twin returns is a finding), and the result (status, values, objective, data handed to the solver) equals, tightly, the solve of the same "
             "shadow state with all domains continuous (binary keeps [0,1]) in a pristine process; every element reached through every route carries "
             "the declared domain, binary => [0,1].  Distinct/non-trivial: (strict|relaxed, solver entries, outcome, cache-fill state, |D|)."
         ),
@@ -141,7 +147,8 @@ PROPS = {
             "callback at the j-th line executed in optyx's compiled closures (sys.settrace during that one callback), or after SciPy returned), optionally inside "
             "increased_recursion_limit, optionally twice, then fault-free solves with the same and with a Hessian method.  Oracles: (i) if the "
             "injected exception left the solver, the call returned FAILED or propagated that exception; (ii) warnings.showwarning is the object "
-            "installed before the call and sys.getrecursionlimit() is unchanged after every operation; (iii) every later solve/read equals the same "
+            "installed before the call, warnings.filters is the same list with the same entries and sys.getrecursionlimit() is unchanged after every operation "
+            "(resets of Python's once-per-location warning memory are measured with a canary warning and attributed to optyx or to SciPy/NumPy frames: probes only); (iii) every later solve/read equals the same "
             "call on the same problem built alone in a pristine process.  Distinct/non-trivial: (site, callback kind, exception class, solver "
             "method, outcome, inside-with, number of solver entries)."
         ),
@@ -154,7 +161,8 @@ PROPS = {
         "level": "exploration",
         "rule": _PEER_RULE + "  Further scenario kinds: parametric constraints with Parameter.set + re-solve, LPs whose constraints repeat declared bounds "
         "that are relaxed later, badly scaled LPs (coefficients below HiGHS' 1e-9 threshold), objectives on one view object then foreign constraints, "
-        "pole / undefined-region terms, bilinear forms over two views of one container, failing first solves (uncompilable constraint, compile-time "
+        "pole / undefined-region terms, bilinear forms over two views of one container, indicator (big-M) models whose relaxed switch ends 1e-7..1e-6 "
+        "away from an integer, rows written as A @ x <= b, failing first solves (uncompilable constraint, compile-time "
         "fault) followed by a retry.  Oracle: status OPTIMAL => every constraint and every declared bound holds within max(1e-5, 10*tol) + 1e-5*scale, "
         "judged twice: with optyx's own constraint objects evaluated on the returned values (NaN counts as violated) and with the constraints AS "
         "WRITTEN in the spec evaluated by the harness's pure-Python semantics (violation > 1e-3).",
@@ -169,7 +177,8 @@ PROPS = {
         "evaluated at the returned values (1e-9 relative; also against the objective AS WRITTEN in the spec, evaluated by the harness's own semantics, "
         "1e-6 relative; points where the objective overflows or exceeds 1e100 are outside its floating-point domain and are not judged), keys(values) = "
         "exactly the variables the model mentions (computed from the harness's own AST), and every scalar / vector / matrix handle AND view (slices incl. "
-        "strided / reversed, rows, columns, diagonal, transpose, sub-matrix) retrieves its values with the declared shape and position.",
+        "strided / reversed, rows, columns, diagonal, transpose, sub-matrix, on- and off-diagonal square blocks of 3x3 symmetric matrices, non-square matrices) "
+        "retrieves its values with the declared shape and position.",
         "assumptions": COMMON_ASSUMPTIONS + ["for a fixed solver answer C07 is a pure function; the simulation contributes the answer space (arbitrary points on every termination path, the retry path, cached second solves)"],
     },
     "C12": {
@@ -179,7 +188,8 @@ PROPS = {
             "seeded histories over {Parameter.set / VectorParameter.set / element set, solve(method), evaluate, compile-early-call-late of "
             "compile_expression / compile_gradient / compile_jacobian / compile_hessian / CompiledExpression / compile_to_dict_function / "
             "symbolic gradient, objective and constraint edits} on models with parameters in 8 placements (target shift, objective coefficient, "
-            "Hessian entry, inside exp, linear coefficient, cross-term coefficient, constraint rhs, constraint coefficient, VectorParameter elements). "
+            "Hessian entry, inside exp, linear coefficient, cross-term coefficient, constraint rhs, constraint coefficient, VectorParameter elements, additive terms of a "
+            "405-term running balance); writes arrive as Python numbers or in a NumPy dtype (float16, float32, int8, int32, bool; always exactly representable). "
             "Every observation is compared tightly with R1 = from-scratch model with fresh Parameters holding the current values in a pristine "
             "forked process, and with R2 = the same with Constants (tight for pointwise observations; objective value at 5e-3 for optimal/optimal "
             "solves of strictly convex members with explicit SLSQP/trust-constr).  Distinct/non-trivial: (op kind, solver method entered, outcome, "
@@ -222,7 +232,7 @@ PROPS = {
             "lb/ub edits, solve with 21 method choices incl. warm starts at the previous solution and solves whose cache building is hit by a "
             "compile-time fault, reads) on one Problem -- or two Problems over the same variable objects -- with a 6-objective / 8-constraint pool "
             "(also 405-term deep objectives and an uncompilable constraint); plus scenario kinds: LP objective rotation (variables leave and enter, "
-            "columns move), re-declaration of the variables under the same names with a new objective in the same Problem (8-14 rounds on deep "
+            "columns move), a warm LP with single-variable rows whose bounds are relaxed / tightened / removed again and again, re-declaration of the variables under the same names with a new objective in the same Problem (8-14 rounds on deep "
             "objectives so that addresses are recycled); every solve/read is compared "
             "tightly (status, values, objective, message, iterations, data handed to the solver at the seam, warnings) with the "
             "same call on a from-scratch build of the current logical state in a pristine forked process.  A case is counted "
